@@ -2247,7 +2247,12 @@ class Interp:
             if a[0] in ("tuple", "list") and b[0] == a[0]:
                 return (a[0], a[1] + b[1])
             if is_seq_term(a) or is_seq_term(b):
-                # `+` on shapes / tuples / lists is concatenation: order matters
+                # `+` on shapes / tuples / lists is concatenation: order matters.  A display on one side is spelled
+                # as the display with the other side starred: [a] + xs == [a, *xs]
+                if a[0] in ("tuple", "list") and b[0] not in ("tuple", "list"):
+                    return (a[0], a[1] + (("star", b),))
+                if b[0] in ("tuple", "list") and a[0] not in ("tuple", "list"):
+                    return (b[0], (("star", a),) + b[1])
                 return ("concat", a, b)
             if is_const(a) and isinstance(a[1], str) or is_const(b) and isinstance(b[1], str):
                 return ("concat", a, b)
@@ -2430,26 +2435,92 @@ class Interp:
             inst = self._private_callable_instance(q, args, kwargs)
             if inst is not None:
                 return inst
+            if q == "builtins.map" and len(args) == 2 and not kwargs:
+                # map(f, (a, b)) over a literal sequence with any callable f (an external function, a module-level
+                # functools.partial): the elementwise calls
+                it_t = self.as_term(args[1])
+                if self._is_lit(it_t):
+                    try:
+                        return ("list", tuple(self.as_term(self.call(args[0], [x], {}, ctx)) for x in it_t[1]))
+                    except AnalysisError:
+                        pass
             if q == "builtins.map" and len(args) == 2 and not kwargs and isinstance(args[0], (Closure, BoundMethod, Partial)):
                 # map(f, xs) is the comprehension (f(x) for x in xs)
                 fn_t = self.reify(args[0])
                 it_t = self.as_term(args[1])
+                if not (fn_t[0] == "lam" and fn_t[1] == 1) and isinstance(args[0], Partial):
+                    # a partial of a function that is kept as a call (not inlined): the lambda that makes that call
+                    d_ = self.depth
+                    self.depth += 1
+                    try:
+                        body_ = self.as_term(self.call(args[0], [("bv", d_, 0)], {}, ctx))
+                        fn_t = ("lam", 1, body_, d_)
+                    except AnalysisError:
+                        pass
+                    finally:
+                        self.depth -= 1
                 if fn_t[0] == "lam" and fn_t[1] == 1:
                     if self._is_lit(it_t):
                         return ("list", tuple(self.beta(fn_t, [x]) for x in it_t[1]))
                     return ("map", fn_t, it_t)
             if q in ("builtins.tuple", "builtins.list") and len(args) == 1 and not kwargs:
                 a0 = self.as_term(args[0])
+                if q == "builtins.tuple" and (
+                        (a0[0] == "attr" and a0[2] in ("shape", "cond_shape")) or
+                        (a0[0] == "sub" and a0[2][0] == "slice" and a0[1][0] == "attr" and a0[1][2] in ("shape", "cond_shape"))):
+                    return a0     # a shape (and a slice of one) is a tuple already
                 if a0[0] in ("tuple", "list"):
                     return ("tuple" if q.endswith("tuple") else "list", a0[1])
                 if a0[0] == "call" and a0[1] == ("ext", "builtins.reversed"):
                     return a0  # list(reversed(x)) / tuple(reversed(x)): the reversed sequence
+            if q in ("builtins.enumerate", "itertools.pairwise") and args and not (set(kwargs) - {"start"}):
+                # over a counted domain, both are maps over the count: enumerate(f(i) for i in range(n)) is
+                # ((i, f(i)) for i in range(n)); pairwise(f(i) for i in range(m)) is ((f(i), f(i+1)) for i in range(m-1))
+                x_ = self.as_term(args[0])
+                f_ = None
+                if x_[0] == "map" and x_[1][0] == "lam" and x_[1][1] == 1:
+                    f_, x_ = x_[1], x_[2]
+                if x_[0] == "call" and x_[1] == ("ext", "builtins.range") and len(x_[2]) == 1 and not x_[3]:
+                    d_ = self.depth
+                    i_ = ("bv", d_, 0)
+                    self.depth += 1
+                    try:
+                        at = (lambda t_: self.beta(f_, [t_])) if f_ is not None else (lambda t_: t_)
+                        if q == "builtins.enumerate":
+                            st_ = self.as_term(args[1]) if len(args) > 1 else self.as_term(kwargs["start"]) if "start" in kwargs else C(0)
+                            body_ = ("tuple", (mk_add((i_, st_)), at(i_)))
+                            dom_ = x_
+                        else:
+                            body_ = ("tuple", (at(i_), at(mk_add((i_, C(1))))))
+                            dom_ = ("call", ("ext", "builtins.range"), (mk_add((x_[2][0], C(-1))),), ())
+                    finally:
+                        self.depth -= 1
+                    return ("map", ("lam", 1, body_, d_), dom_)
+            if q == "builtins.slice" and 1 <= len(args) <= 3 and not kwargs:
+                a_ = [self.as_term(x) for x in args]
+                if len(a_) == 1:
+                    return ("slice", NONE, a_[0], NONE)
+                return ("slice", a_[0], a_[1], a_[2] if len(a_) == 3 else NONE)
             if q == "builtins.isinstance" and len(args) == 2:
                 a0 = self.as_term(args[0])
                 if a0[0] in ("tuple",) and self.as_term(args[1]) == ("ext", "builtins.tuple"):
                     return TRUE
         elif f[0] == "attr":
             obj, name = f[1], f[2]
+            # a method of a constant string with constant arguments ('transform'.endswith('_and_log_det')) is a constant
+            if is_const(obj) and isinstance(obj[1], str) and name in ("endswith", "startswith", "removesuffix", "removeprefix",
+                                                                       "replace", "split", "partition", "rpartition", "upper",
+                                                                       "lower", "strip", "count", "find", "format") and not kwargs:
+                cargs = [self.as_term(a) for a in args]
+                if all(is_const(a) and isinstance(a[1], (str, int)) for a in cargs):
+                    try:
+                        v = getattr(obj[1], name)(*[a[1] for a in cargs])
+                    except Exception:  # noqa: BLE001
+                        v = None
+                    if isinstance(v, (str, bool, int)):
+                        return C(v)
+                    if isinstance(v, (tuple, list)) and all(isinstance(x, str) for x in v):
+                        return ("tuple" if isinstance(v, tuple) else "list", tuple(C(x) for x in v))
             # self.method(...) -> inline; also unwrap(self).<helper the unchanged tree did not have>(...), the form a
             # public method uses after `self = unwrap(self)`
             on_unwrapped_self = ctx[1] is not None and obj == ("call", ("ext", "flowjax.wrappers.unwrap"), (), (("tree", ctx[2]),)) \
